@@ -7,7 +7,9 @@ Open Scope N_scope.
 
 (* observation after one call *)
 Inductive obsv :=
-  | O (r : tp_ret) (i d : option tp_intr) (last : N) (e : tp_mode) (a : option tp_scope).
+  | O (r : tp_ret) (i d : option tp_intr) (last : N) (e : tp_mode) (a : option tp_scope)
+  | OF (r : tp_ret) (i d : option tp_intr) (last : N) (e : tp_mode) (a : option tp_scope)
+       (skip : N) (skipafter : option N).   (* tx.Skip / tx.SkipAfter not at their rest values *)
 
 Inductive case :=
   | Case (w : tp_waf) (ks : list tp_call) (obs : list obsv)
@@ -15,7 +17,8 @@ Inductive case :=
 
 (* short names for the shard files *)
 Definition I := mkIntr.
-Definition R := mkRaw.
+Definition R := mkRaw None.
+Definition MK (m : N) := mkRaw (Some m) 0 0 CTrue None [].
 Definition D := mkDef.
 Definition W := mkWaf.
 
@@ -43,13 +46,18 @@ Definition ret_eqb (a b : tp_ret) : bool :=
   end.
 
 Definition observe (s : tp_state) (r : tp_ret) : obsv :=
-  O r (st_intr s) (st_dintr s) (st_last s) (st_engine s) (st_allow s).
+  OF r (st_intr s) (st_dintr s) (st_last s) (st_engine s) (st_allow s) (st_skip s) (st_skipafter s).
+
+(* [O ...] abbreviates [OF ... 0 None] *)
+Definition obsv_norm (a : obsv) : obsv :=
+  match a with O r i d l e al => OF r i d l e al 0 None | _ => a end.
 
 Definition obsv_eqb (a b : obsv) : bool :=
-  match a, b with
-  | O r i d l e al, O r' i' d' l' e' al' =>
+  match obsv_norm a, obsv_norm b with
+  | OF r i d l e al k m, OF r' i' d' l' e' al' k' m' =>
     ret_eqb r r' && opt_eqb intr_eqb i i' && opt_eqb intr_eqb d d' && (l =? l')
-    && mode_eqb e e' && opt_eqb scope_eqb al al'
+    && mode_eqb e e' && opt_eqb scope_eqb al al' && (k =? k') && opt_eqb N.eqb m m'
+  | _, _ => false
   end.
 
 (* run the model along the calls, comparing every observation *)
@@ -82,7 +90,7 @@ Definition ok (cs : case) : bool :=
     let c := tp_compile w in
     let '(b, s) := run_cmp c (tp_init c) ks obs in
     b && matched_eqb (tp_matched (st_trace s)) matched
-      && forallb (fun r => tp_starter_count (rr_id r) (st_trace s) =? count_lookup (rr_id r) counts) (w_rules w)
+      && forallb (fun r => is_some (rr_mark r) || (tp_starter_count (rr_id r) (st_trace s) =? count_lookup (rr_id r) counts)) (w_rules w)
   end.
 
 Definition mismatches (l : list case) : list nat := mismatches_of ok l.
